@@ -59,6 +59,9 @@ type Case struct {
 	// Invariant: non-empty when the run broke something the harness checks by
 	// itself, outside the model (e.g. the caller's argument slice was rewritten)
 	Invariant string `json:"invariant,omitempty"`
+	// InvariantKF: the class of the broken invariant when it is one a known
+	// finding may describe (check.py decides; empty = always a violation)
+	InvariantKF string `json:"invariant_kf,omitempty"`
 }
 
 // Family generates inputs and runs one input on the implementation.
@@ -74,11 +77,12 @@ type Family struct {
 
 // Result of running one input.
 type Result struct {
-	Coq        string
-	Observed   any
-	Tags       []string
-	Nontrivial bool
-	Invariant  string
+	Coq         string
+	Observed    any
+	Tags        []string
+	Nontrivial  bool
+	Invariant   string
+	InvariantKF string
 }
 
 type Ctx struct {
@@ -242,7 +246,7 @@ func gen(f *Family, tier string, seed uint64, out string, scale int, bias, corpu
 		}
 		srcCount[source]++
 		c := Case{ID: n, Family: f.Name, Input: json.RawMessage(raw), Observed: res.Observed, Coq: res.Coq,
-			Tags: res.Tags, Nontrivial: res.Nontrivial, Source: source, Invariant: res.Invariant}
+			Tags: res.Tags, Nontrivial: res.Nontrivial, Source: source, Invariant: res.Invariant, InvariantKF: res.InvariantKF}
 		if len(samples) < 3 && res.Nontrivial && (source == "random" || len(samples) < 1) {
 			samples = append(samples, map[string]any{"input": json.RawMessage(raw), "observed": res.Observed})
 		}
